@@ -26,6 +26,8 @@ enum Item {
     DocRev(&'static str),
     /// SW-SERVICE-ARG in ARGUMENTS (ordered parent)
     Arg(&'static str),
+    /// SW-SERVICE-ARG in ARGUMENTS (ordered parent) with a LONG-NAME whose L-4 entries are created in the given order
+    ArgL(&'static str, &'static [&'static str]),
     /// INCLUDED-DATA-TYPE-SET (no name, no key) holding DATA-TYPE-REFs in the given (possibly unsorted) order
     TypeSet(&'static [&'static str]),
 }
@@ -102,6 +104,13 @@ fn scenarios() -> Vec<Scenario> {
         },
         Scenario { name: "ordered-doc-revisions", pool: vec![Item::DocRev("2.0.0"), Item::DocRev("1.0.0"), Item::DocRev("10.0.0"), Item::DocRev("1.0.0;b")], ordered: true, repeat: true },
         Scenario { name: "ordered-arguments", pool: names.iter().take(5).map(|n| Item::Arg(n)).collect(), ordered: true, repeat: false },
+        // children of an ordered parent keep their places, but what is below each of them must be sorted all the same
+        Scenario {
+            name: "ordered-arguments-with-unsorted-content",
+            pool: vec![Item::ArgL("a1", &["EN", "DE"]), Item::ArgL("a2", &["FR", "DE", "EN"]), Item::ArgL("a10", &["DE", "EN"]), Item::ArgL("b", &["EN", "DE"])],
+            ordered: true,
+            repeat: false,
+        },
     ]
 }
 
@@ -128,7 +137,7 @@ fn build_parent(s: &Scenario) -> (AutosarModel, ArxmlFile, Element) {
                     .create_sub_element(ElementName::ParameterValues)
                     .unwrap(),
                 "references-by-dest" => els.create_named_sub_element(ElementName::System, "sys").unwrap().create_sub_element(ElementName::FibexElements).unwrap(),
-                "ordered-arguments" => els.create_named_sub_element(ElementName::BswModuleEntry, "entry").unwrap().create_sub_element(ElementName::Arguments).unwrap(),
+                "ordered-arguments" | "ordered-arguments-with-unsorted-content" => els.create_named_sub_element(ElementName::BswModuleEntry, "entry").unwrap().create_sub_element(ElementName::Arguments).unwrap(),
                 "keyless-siblings-with-unsorted-content" => els
                     .create_named_sub_element(ElementName::ApplicationSwComponentType, "swc")
                     .unwrap()
@@ -187,6 +196,16 @@ fn create_item(parent: &Element, it: &Item) -> Result<Element, AutosarDataError>
             Ok(d)
         }
         Item::Arg(name) => parent.create_named_sub_element(ElementName::SwServiceArg, name),
+        Item::ArgL(name, langs) => {
+            let a = parent.create_named_sub_element(ElementName::SwServiceArg, name)?;
+            let ln = a.create_sub_element(ElementName::LongName)?;
+            for l in langs.iter() {
+                let l4 = ln.create_sub_element(ElementName::L4)?;
+                l4.set_attribute_string(AttributeName::L, l)?;
+                l4.insert_character_content_item("same text", 0)?;
+            }
+            Ok(a)
+        }
         Item::TypeSet(refs) => {
             let set = parent.create_sub_element(ElementName::IncludedDataTypeSet)?;
             let list = set.create_sub_element(ElementName::DataTypeRefs)?;
@@ -329,6 +348,14 @@ fn run_perm(s: &Scenario, perm: &[Item]) -> PermResult {
     match f.serialize() {
         Ok(t2) if t2 == text => {}
         _ => problems.push(("idempotence|second-sort-changes-the-result".into(), String::new())),
+    }
+    // sorted everywhere: sorting any single element of the sorted model changes nothing
+    for (_, e) in walk(&m) {
+        e.sort();
+    }
+    match f.serialize() {
+        Ok(t3) if t3 == text => {}
+        _ => problems.push(("completeness|sorting-an-element-of-the-sorted-model-still-changes-it".into(), String::new())),
     }
     PermResult { text_no_comments: Some(strip_comments(&text)), problems }
 }
@@ -657,6 +684,7 @@ fn item_label(i: &Item) -> String {
         Item::Ref(d, t, c) => format!("ref(dest={d},{t},comment={})", c.unwrap_or("-")),
         Item::DocRev(l) => format!("rev:{l}"),
         Item::Arg(n) => format!("arg:{n}"),
+        Item::ArgL(n, l) => format!("arg:{n}{l:?}"),
         Item::TypeSet(r) => format!("typeset{r:?}"),
     }
 }
